@@ -173,6 +173,7 @@ class System:
     def __init__(self):
         self.eqs = {}
         self.iq = {}          # linear part (sorted term tuple) -> tightest Lin with that linear part
+        self.neqs = set()     # Lin e with e != 0 (only used to refute later equalities)
         self.bottom = False
 
     @property
@@ -197,8 +198,32 @@ class System:
         s = System()
         s.eqs = dict(self.eqs)
         s.iq = dict(self.iq)
+        s.neqs = set(self.neqs)
         s.bottom = self.bottom
         return s
+
+    def add_ne(self, e):
+        """assume e != 0"""
+        if self.bottom:
+            return
+        r = self.reduce(e)
+        if r.is_const():
+            if r.c == 0:
+                self.bottom = True
+            return
+        n = norm_eq(r)
+        if n is True or n is False:
+            return
+        self.neqs.add(n)
+
+    def _check_neqs(self):
+        for q in list(self.neqs):
+            r = self.reduce(q)
+            if r.is_const():
+                if r.c == 0:
+                    self.bottom = True
+                    return
+                self.neqs.discard(q)
 
     # ---- normal forms
     def reduce(self, e):
@@ -254,6 +279,8 @@ class System:
             else:
                 newi.add(q)
         self.ineqs = newi
+        if self.neqs:
+            self._check_neqs()
 
     def add_ge(self, e):
         """assume e >= 0"""
@@ -407,6 +434,8 @@ class System:
         if self.bottom:
             return
         vs = set(vs)
+        if self.neqs:
+            self.neqs = {q for q in (self.reduce(x) for x in self.neqs) if not (set(q.t) & vs) and not q.is_const()}
         for v in list(vs):
             if v in self.eqs:
                 # pivot: just drop its defining row (no other row mentions a pivot)
@@ -449,6 +478,7 @@ class System:
         for p, ex in self.eqs.items():
             s.eqs[f(p)] = ex.rename(f)
         s.ineqs = [q.rename(f) for q in self.iq.values()]
+        s.neqs = {q.rename(f) for q in self.neqs}
         return s
 
     def all_constraints(self):
@@ -645,6 +675,8 @@ def join(a, b, extra_candidates=()):
         n = norm_ineq(q)
         if n is not True and n is not False:
             cands.add(n)
+    for q in a.neqs & b.neqs:
+        r.neqs.add(q)
     for q in cands:
         ea, eb = a.entails_ge(q), b.entails_ge(q)
         if ea and eb:
